@@ -24,7 +24,7 @@ ASSUMPTIONS = [
     'own-grid clause is bit-equality; foreign points must lie between the two neighbouring native values (equal to the end value outside the native range)',
 ]
 RULE = RULE + ' ' + 'Also: observation layouts with unequal spacing of the bin centres (widest implied bin at the low or the high end).'
-REQUIRED = {'full-run-broke-off-then-repeated': 0.3, 'obs:widest-low': 0.02, 'obs:widest-high': 0.02, 'opacity:ktables': 0.15, 'grids:tie-for-largest': 0.04, 'obs:constant-R-wide': 0.08, 'grids:multi': 0.35, 'grids:single': 0.15, 'family:emission': 0.2, 'family:transmission': 0.2}
+REQUIRED = {'obs:explicit-widths': 0.05, 'window-sequence': 0.5, 'full-run-broke-off-then-repeated': 0.3, 'obs:widest-low': 0.02, 'obs:widest-high': 0.02, 'opacity:ktables': 0.15, 'grids:tie-for-largest': 0.04, 'obs:constant-R-wide': 0.08, 'grids:multi': 0.35, 'grids:single': 0.15, 'family:emission': 0.2, 'family:transmission': 0.2}
 
 
 @st.composite
@@ -173,6 +173,25 @@ def check(case):
             r2 = cut(out, 'model@cutoff_grid=False', m.model, sub, False)
             if not np.array_equal(np.asarray(r2[0]), native) or not close(r2[1], fspec, rtol=1e-12, atol=0):
                 out.fail('uncut==full', 'cutoff_grid=False did not return the full native computation')
+            # ---- history: two windows of the same length at the two ends of the native grid, one after the other and the first
+            # again (a retrieval on one instrument's range, then on another's, with the same live model): still the full values
+            nn_ = len(native)
+            if nn_ >= 10:
+                out.cls('window-sequence')
+                out.applies('window-sequence')
+                for nm_, sl_ in (('A', slice(1, 4)), ('B', slice(nn_ - 4, nn_ - 1)), ('A', slice(1, 4))):
+                    rw_ = cut(out, 'model@window', m.model, native[sl_].copy(), True)
+                    gw_, sw_ = np.asarray(rw_[0], dtype=float), np.asarray(rw_[1], dtype=float)
+                    ix_ = np.searchsorted(native, gw_)
+                    if len(gw_) == 0 or np.any(ix_ >= nn_) or not np.array_equal(native[np.minimum(ix_, nn_ - 1)], gw_) \
+                            or not np.all(np.isin(native[sl_], gw_)):
+                        out.fail('window-sequence@grid', 'window %s: returned wavenumbers are not the native points asked for' % nm_)
+                        break
+                    at_ = aslack if family == 'transmission' else np.array([hot_at.get(float(x), aslack) for x in gw_])
+                    if not np.all(np.abs(sw_ - fspec[ix_]) <= 1e-9 * np.abs(fspec[ix_]) + at_ + 1e-300):
+                        out.fail('window-sequence@%s,%s' % (family, tag), 'window %s differs from the full run at the same points (max rel %.2e)'
+                                 % (nm_, maxrel(sw_, fspec[ix_])))
+                        break
             # ---- observation binning ---------------------------------------------------------
             nb = case['nbins']
             spacing = w['dwn']
@@ -218,6 +237,22 @@ def check(case):
                     k = int(np.argmax(np.abs(bb - bf)))
                     out.fail('binned-restricted==binned-full@%s,%s' % (family, tag),
                              'bin %d of %d: %r vs %r (max rel %.2e)' % (k, nb, bb[k], bf[k], maxrel(bb, bf)))
+                if lay != 'auto' and nb == 4:
+                    # explicit bin widths, as an observation file with a width column gives them: each bin as wide as its
+                    # mid-points imply, the two end bins as wide as the widest implied bin (the statement's limit)
+                    from vlib.props.c05 import midpoint_widths
+                    _, wimp = midpoint_widths(centres)
+                    wexp = np.array(wimp, dtype=float, copy=True)
+                    wexp[0] = wexp[-1] = float(np.max(wimp))
+                    out.cls('obs:explicit-widths')
+                    out.applies('binned-restricted==binned-full')
+                    b2 = FluxBinner(centres.copy(), wngrid_width=wexp.copy())
+                    bb2 = np.asarray(cut(out, 'bin_model', b2.bin_model, rb)[1], dtype=float)
+                    bf2 = np.asarray(cut(out, 'bin_model', b2.bin_model, (native, fspec, None, None))[1], dtype=float)
+                    if not close(bb2, bf2, rtol=1e-9 + rslack, atol=aslack):
+                        k = int(np.argmax(np.abs(bb2 - bf2)))
+                        out.fail('binned-restricted==binned-full@%s,%s,explicit-widths' % (family, tag),
+                                 'bin %d of %d: %r vs %r (max rel %.2e)' % (k, nb, bb2[k], bf2[k], maxrel(bb2, bf2)))
                 # the order in which the requested points are listed is irrelevant
                 out.applies('request-order')
                 rd = cut(out, 'model@observation-descending', m.model, centres[::-1].copy(), True)
